@@ -71,6 +71,11 @@ func v1ParseConfig(rd io.Reader) (Config, error) {
 		if settings.Packages[j].Engine == "" {
 			settings.Packages[j].Engine = EnginePostgreSQL
 		}
+		switch settings.Packages[j].Engine {
+		case EngineMySQL, EnginePostgreSQL, EngineXLemon:
+		default:
+			return config, ErrUnknownEngine
+		}
 	}
 	return settings.Translate(), nil
 }
